@@ -12,7 +12,7 @@ RULE = sqlmon.RULE_HISTORIES + ' Reports always carry the instance the attempt w
 ASSUMPTIONS = sqlmon.COMMON_ASSUMPTIONS
 SHARDS = {'quick': 4, 'thorough': 16}
 TIMEOUT = {'quick': 900, 'thorough': 3600}
-FLOORS = {'sql_routine:add_attempt': 200, 'sql_routine:unschedule_job': 5, 'sql_routine:deactivate_instance': 20, 'instances_with_open_attempts_checked': 200, 'in_memory_free_cores_compared': 2000,
+FLOORS = {'driver_restarts': 150, 'sql_routine:add_attempt': 200, 'sql_routine:unschedule_job': 5, 'sql_routine:deactivate_instance': 20, 'instances_with_open_attempts_checked': 200, 'in_memory_free_cores_compared': 2000,
           'worker_job_started_overtook_schedule_job': 5}
 
 
@@ -53,4 +53,4 @@ class InMemory(Monitor):
 
 def run(ctx):
     sqlmon.standard_run(ctx, lambda p: [FreeCores(p), InMemory(p)],
-                        cfg={'weights': {'job_complete': 14, 'job_started': 8, 'unschedule': 8, 'cancel_running': 4, 'deactivate_instance': 3, 'create_instance': 3, 'activate_instance': 3, 'jpim_create': 4, 'jpim_schedule': 4}})
+                        cfg={'weights': {'job_complete': 14, 'job_started': 8, 'unschedule': 8, 'cancel_running': 4, 'deactivate_instance': 3, 'create_instance': 3, 'activate_instance': 3, 'jpim_create': 4, 'jpim_schedule': 4, 'restart_driver': 1.5}})
